@@ -24,6 +24,8 @@ KEYS = tuple(FLOORS["quick"].keys()) + ("higher_arrived_between_pick_and_start",
 # floors for the situations added with the later rounds of seeded changes (evidence that they were really exercised)
 FLOORS["quick"].update({'higher_arrived_between_pick_and_start': 30, 'echoed_arrivals_inside_next_hop_put': 4000})
 FLOORS["thorough"].update({'higher_arrived_between_pick_and_start': 150, 'echoed_arrivals_inside_next_hop_put': 20000})
+FLOORS["quick"].update({'priority_table_object_reused_cases': 180})
+FLOORS["thorough"].update({'priority_table_object_reused_cases': 900})
 
 
 def plan(tier):
